@@ -68,6 +68,14 @@ def model_summary(shx):
             attrs.append((type(x).__name__.upper(), tuple(vals)))
     views = {'attributes': attrs, 'has_element': [shx.sfac_table.has_element(e) for e in shx.sfac_table.elements_list], 'sum_formula': shx.sum_formula.upper(),
              'sum_formula_exact': shx.sum_formula_exact.upper(), 'elements_of_atoms': [a.element.upper() for a in shx.atoms.all_atoms]}
+    # the diagnostics of the restraint check are part of the model as well (names compared case-insensitively)
+    import re as _re
+    errs = []
+    for w in shx.restraint_errors:
+        m_ = _re.search(r'Atom list has no --> (.*) \*\*\*', w)
+        if m_:
+            errs.append(tuple(sorted(x.strip().upper() for x in m_.group(1).split(','))))
+    views['restraint_errors'] = sorted(errs)
     return {'atoms': atoms, 'instr': instr, 'restraints': rest, 'hklf': shx.hklf is not None, 'end': shx.end, 'views': views,
             'fvars': [round(float(x.fvar_value), 9) for x in shx.fvars.fvars], 'sfac': [e.upper() for e in shx.sfac_table.elements_list]}
 
